@@ -716,9 +716,54 @@ static int main_int(void)
 /* signals                                                                                     */
 
 enum { K_ZERO, K_SQUARE, K_IMPULSE, K_DC, K_NOISE, K_CLIPSPEECH, K_ALT, K_SWEEP, K_SPEECH_SIL,
-       K_BURSTS, K_ONE, K_LSB, K_MIX, K_FDENORM, K_FTINY, K_FONE, K_FHUGE, K_NKINDS };
+       K_BURSTS, K_ONE, K_LSB, K_MIX, K_FDENORM, K_FTINY, K_FONE, K_FHUGE, K_FBITS, K_FNOISE, K_NKINDS };
 static const char *kind_names[] = { "zero", "square", "impulse", "dc", "noise", "clipspeech", "alt",
-    "sweep", "speech_sil", "bursts", "one", "lsb", "mix", "fdenorm", "ftiny", "fone", "fhuge" };
+    "sweep", "speech_sil", "bursts", "one", "lsb", "mix", "fdenorm", "ftiny", "fone", "fhuge", "fbits", "fnoise" };
+
+/* float32 samples chosen by BIT PATTERN (close-c05c18): every value is a legal sample in [-1,1] in host order, but
+ * its byte-REVERSED pattern (what a reader that forgets / doubles the input_endian swap would see) is
+ * cls 0: NaN, 1: +-Inf, 2: huge (|v| > 1e37), 3: subnormal, 4: -0.0 / 0x80000000-like, other: one of these at random.
+ * Host bytes b3 b2 b1 b0 (b3 = sign + high exponent bits); reversed value has b0 as ITS sign/exponent byte.       */
+static float32 c18_fbits_sample(long cls, uint64_t *st)
+{
+    uint32_t r = (uint32_t)(vf_rand(st) >> 7), b3, b2, b1, b0, u;
+    float32 f;
+    static const uint32_t tops[] = { 0x3E, 0xBE, 0x3F, 0xBF, 0x3D, 0xBB, 0x38, 0xB0 };
+    if (cls < 0 || cls > 4) cls = (long)((r >> 24) % 5);
+    b3 = tops[r & 7]; b2 = (r >> 3) & 0xFF; b1 = (r >> 11) & 0xFF; b0 = (r >> 19) & 1 ? 0xFF : 0x7F;
+    if ((b3 & 0x7F) == 0x3F) b2 &= 0x7F;                 /* exponent 126: |v| in [0.5, 1) */
+    switch (cls) {
+    case 0: b1 |= 0x80; break;                           /* reversed: exponent 255, mantissa != 0 (b3 != 0) */
+    case 1: b1 = 0x80; b2 = 0; b3 = 0; break;            /* reversed: 0x7F800000 / 0xFF800000; host value subnormal */
+    case 2: if (r & 0x100000) { b1 &= 0x7F; } else { b0 -= 1; } break;   /* reversed exponent 254 / 252..253 */
+    case 3: b0 = (r & 0x100000) ? 0x80 : 0x00; b1 &= 0x7F; break;       /* reversed: subnormal */
+    default: b0 = 0x80; b1 = 0; b2 = 0; b3 = 0; break;                   /* host 1.8e-43, reversed -0.0 */
+    }
+    u = (b3 << 24) | (b2 << 16) | (b1 << 8) | b0;
+    memcpy(&f, &u, 4);
+    return f;
+}
+/* white noise with a full 23-bit random mantissa, sign random, exponent 127-p1 .. 126 (p1 in 1..100): |v| < 1 */
+static float32 c18_fnoise_sample(long p1, uint64_t *st)
+{
+    uint32_t r = (uint32_t)(vf_rand(st) >> 5), u;
+    float32 f;
+    if (p1 < 1) p1 = 1;
+    if (p1 > 100) p1 = 100;
+    u = (r & 0x807FFFFFu) | ((uint32_t)(126 - (long)((r >> 23) & 0xFF) % p1) << 23);
+    memcpy(&f, &u, 4);
+    return f;
+}
+/* fills f32[0..n): kind K_FBITS (p1 = class, every p2-th sample adversarial, the rest full-mantissa noise) / K_FNOISE */
+static void c18_gen_fpattern(int fbits, long p1, long p2, size_t n, uint64_t seed, float32 *f32)
+{
+    uint64_t st = seed * 0x9E3779B97F4A7C15ULL + 777;
+    size_t i;
+    for (i = 0; i < n; i++) {
+        if (fbits && (p2 <= 1 || i % (size_t)p2 == (size_t)(seed % (uint64_t)p2))) f32[i] = c18_fbits_sample(p1, &st);
+        else f32[i] = c18_fnoise_sample(fbits ? 6 : p1, &st);
+    }
+}
 
 static int16 *g_speech; static size_t g_nspeech;
 static void load_speech(const char *path)
@@ -1317,6 +1362,8 @@ static int main_sig(const char *json, const char *speech, const char *lang)
                 default: f32[i] = (float32)(sig[i] / 32768.0);
                 }
             }
+            if (kind == K_FBITS || kind == K_FNOISE) c18_gen_fpattern(kind == K_FBITS, p1, p2, n, seed, f32);
+            if (kind == K_FBITS || kind == K_FNOISE) for (i = 0; i < n; i++) if (!(f32[i] >= -1.0f && f32[i] <= 1.0f)) { fprintf(stderr, "harness: generated float sample outside [-1,1]\n"); abort(); }
         } else {
             s16 = (int16 *)malloc(sizeof(int16) * (n + 1));
             for (i = 0; i < n; i++) s16[i] = clip16(sig[i]);
@@ -1514,6 +1561,45 @@ static int main_sig(const char *json, const char *speech, const char *lang)
 #include <sys/wait.h>
 #include <unistd.h>
 
+/* close-c05c18: float samples chosen by bit pattern (c18_gen_fpattern) through fe_process_float32 in blocks of
+ * `block` samples (0 = the whole signal in one call), then fe_end; counts frames with a non-finite cepstral value */
+static void fe_run_fpattern(fe_t *fe, mfcc_t **cep, int ceplen, int fbits, long p1, long p2, uint64_t seed,
+                            size_t block, long *frames, long *bad, char *first, size_t firstsz)
+{
+    size_t n = (size_t)fe->frame_shift * 24 + fe->frame_size, pos = 0, i;
+    float32 *f32 = (float32 *)malloc(4 * (n + 1));
+    int fr = 0, nfr, j;
+    c18_gen_fpattern(fbits, p1, p2, n, seed, f32);
+    for (i = 0; i < n; i++) if (!(f32[i] >= -1.0f && f32[i] <= 1.0f)) { fprintf(stderr, "harness: float sample outside [-1,1]\n"); abort(); }
+    if (fe->swap)
+        for (i = 0; i < n; i++) { unsigned char *b = (unsigned char *)&f32[i], t; t = b[0]; b[0] = b[3]; b[3] = t; t = b[1]; b[1] = b[2]; b[2] = t; }
+    if (block == 0 || block > n) block = n;
+    fe_start(fe);
+    while (pos <= n) {
+        size_t m = n - pos < block ? n - pos : block, left = m;
+        const float32 *pf = f32 + pos; int guard = 0;
+        if (pos == n) nfr = fe_end(fe, cep, 300);
+        else {
+            nfr = 0;
+            while (left > 0 && guard++ < 8) {
+                int r = fe_process_float32(fe, &pf, &left, cep + nfr, 300 - nfr);
+                if (r <= 0) break;
+                nfr += r;
+            }
+        }
+        for (i = 0; (int)i < nfr; i++) {
+            int b = 0;
+            for (j = 0; j < ceplen; j++) if (!isfinite(cep[i][j])) b = 1;
+            (*frames)++;
+            if (b) { if (!*bad) snprintf(first, firstsz, "%s%ld/p2=%ld/block%ld/frame%d", fbits ? "fbits" : "fnoise", p1, p2, (long)block, fr); (*bad)++; }
+            fr++;
+        }
+        if (pos == n) break;
+        pos += m;
+    }
+    free(f32);
+}
+
 static void fe_one_config(const char *json)
 {
     config_t *config = config_parse_json(NULL, json);
@@ -1579,8 +1665,21 @@ static void fe_one_config(const char *json)
             free(sig); free(s16); free(f32);
         }
     }
-    printf("fecfg init=1 nfilt=%d fft=%d frame_size=%d shift=%d ceplen=%d ncoef=%ld coef_bad=%ld coef_neg=%ld frames=%ld bad=%ld first=%s\n",
-           fe->mel_fb->num_filters, fe->fft_size, fe->frame_size, fe->frame_shift, ceplen, ncoef, coef_bad, coef_neg, frames, bad, first);
+    {
+        /* close-c05c18: bit-pattern floats x call shapes (one call / 1000 / shift+1 / less than a frame shift) */
+        long fpf = 0, fpb = 0, cls; char fpfirst[96] = "-";
+        size_t blocks[4]; int bi;
+        blocks[0] = 0; blocks[1] = 1000; blocks[2] = (size_t)fe->frame_shift + 1; blocks[3] = fe->frame_shift > 3 ? (size_t)fe->frame_shift / 3 : 1;
+        for (bi = 0; bi < 4; bi++) {
+            for (cls = 0; cls <= 5; cls++)
+                fe_run_fpattern(fe, cep, ceplen, 1, cls, (cls == 5 || (cls + bi) % 2) ? 1 : 97, 101 + (uint64_t)cls * 7 + (uint64_t)bi, blocks[bi], &fpf, &fpb, fpfirst, sizeof(fpfirst));
+            fe_run_fpattern(fe, cep, ceplen, 0, bi == 0 ? 1 : bi == 1 ? 8 : bi == 2 ? 30 : 100, 0, 211 + (uint64_t)bi, blocks[bi], &fpf, &fpb, fpfirst, sizeof(fpfirst));
+        }
+        printf("fecfg init=1 nfilt=%d fft=%d frame_size=%d shift=%d ceplen=%d ncoef=%ld coef_bad=%ld coef_neg=%ld frames=%ld bad=%ld first=%s "
+               "swap=%d dither=%d remove_dc=%d fpat_frames=%ld fpat_bad=%ld fpat_first=%s\n",
+               fe->mel_fb->num_filters, fe->fft_size, fe->frame_size, fe->frame_shift, ceplen, ncoef, coef_bad, coef_neg, frames, bad, first,
+               fe->swap ? 1 : 0, fe->dither ? 1 : 0, fe->remove_dc ? 1 : 0, fpf, fpb, fpfirst);
+    }
 }
 
 static int main_fe(void)
